@@ -24,7 +24,7 @@ class Prop(BaseProp):
             "(ids/literals erased); non-trivial = at least 2 expected entries")
     ASSUMPTIONS = ["member/test declarations are immediately followed by their implementing definition",
                    "implementing definitions carry no doccomment", "default settings (config_default.yaml)",
-                   "generic-command arguments with parentheses are compared with whitespace removed",
+                   "generic-command arguments with parentheses are compared as token sequences (any spacing around parentheses is accepted)",
                    "kind markers are matched loosely (keywords in note/warning text)"]
     HEADLINE = ["entries_expected", "entries_matched", "modules_with_comments", "documented_api_checked"]
 
@@ -115,7 +115,7 @@ class Prop(BaseProp):
         page = rstscan.Page(o.value)
         obs = oracle.observed_top(page)
         nv = len(res.violations)
-        matched = oracle.compare_sequence(res, exp, obs, "top")
+        matched = oracle.compare_sequence(res, exp, obs, "top", b.unasserted_impl_names)
         res.count("entries_matched", len(matched))
         for e in exp:
             n = matched.get(e.uid)
@@ -135,8 +135,13 @@ class Prop(BaseProp):
                     has_compound = any(isinstance(a, list) for a in e.item.args)
                     if has_compound:
                         res.count("generic_compound")
+                        import re as _re
+                        tok = lambda t: _re.findall(r"[()]|[^\s()]+", t)       # noqa: E731
                         if oracle.nows(got) != oracle.nows(e.sig):
                             res.violate("generic-compound-order", f"arguments {got!r}, written {e.sig!r}", None)
+                        elif tok(got) != tok(e.sig):
+                            # same characters, different token boundaries: arguments were glued together or split
+                            res.violate("generic-compound-token-boundaries", f"arguments {got!r}, written {e.sig!r}", None)
                     elif got != e.sig:
                         res.violate("generic-args", f"arguments {got!r}, written {e.sig!r}", None)
         if page.stray_top_lines():
@@ -145,7 +150,8 @@ class Prop(BaseProp):
             res.violate("module-directive-count", f"{len(page.modules())} module directives", None)
         # second observation point: DocumentationAggregator.documented
         if doc is not None:
-            api = [(DOC_KIND.get(type(d).__name__, type(d).__name__)) for d in doc.aggregator.documented]
+            api = [(DOC_KIND.get(type(d).__name__, type(d).__name__)) for d in doc.aggregator.documented
+                   if not (type(d).__name__ in ("FunctionDocumentation", "MacroDocumentation") and d.name in b.unasserted_impl_names)]
             api_wo = [k for k in api if k != "module"]
             want = [e.kind for e in exp]
             res.count("documented_api_checked")
